@@ -98,6 +98,20 @@ func (c *context) AssignActions() bool {
 		}
 	}
 
+	// The generated actions of 'x*!' and 'x+!' call Discard() on every element.
+	for _, rule := range c.ParserGrammar.Rules {
+		if RuleGenerated(rule) != generatedOneOrMoreF || c.RuleGoTypes[rule] == nil {
+			continue
+		}
+		elemType := c.RuleGoTypes[rule].(*gotypes.Slice).Elem()
+		if !hasDiscardMethod(elemType) {
+			c.Errs.Errorf(
+				rule.Position,
+				"%v: type %v does not have a method Discard() bool",
+				rule.Name, elemType)
+		}
+	}
+
 	if c.Errs.HasError() {
 		return false
 	}
@@ -153,6 +167,22 @@ func (c *context) AssignActions() bool {
 	}
 
 	return !c.Errs.HasError()
+}
+
+// hasDiscardMethod returns whether a variable of type typ has a method
+// 'Discard() bool'.
+func hasDiscardMethod(typ gotypes.Type) bool {
+	obj, _, _ := gotypes.LookupFieldOrMethod(typ, true, nil, "Discard")
+	method, ok := obj.(*gotypes.Func)
+	if !ok {
+		return false
+	}
+	sig := method.Type().(*gotypes.Signature)
+	if sig.Params().Len() != 0 || sig.Results().Len() != 1 {
+		return false
+	}
+	basic, ok := sig.Results().At(0).Type().Underlying().(*gotypes.Basic)
+	return ok && basic.Info()&gotypes.IsBoolean != 0
 }
 
 func (c *context) getActionMethods() map[string][]*actionMethod {
